@@ -86,3 +86,59 @@ CHECKS['C13'] = dict(
                  'the state left by a failed init is not judged until the next successful init',
                  'expressions <= depth 4; LLVM evaluators are C14, not covered', 'sampling, not proof'],
 )
+
+CHECKS['C18'] = dict(
+    variants=['asan'],
+    targets=['build/bin/c18'],
+    binaries=['build/bin/c18'],
+    quick=dict(runs=3000, workers=16, chunk=20, wall_cap=600),
+    thorough=dict(runs=80000, workers=16, chunk=20, wall_cap=3000),
+    run_timeout=90,
+    exec_timeout=90,
+    shrink_keys=['ops', 'faults'],
+    expected_probes=['parse_after_failed_parse', 'parse_ok', 'parse_error', 'trunc', 'byte', 'nul', 'dup', 'del',
+                     'splice', 'paren', 'opbyte', 'swap'],
+    rule=('one run = one long-lived Parser (1 in 3 runs with local constants) and one long-lived SbmlParser fed a '
+          'seeded history of 10-120 inputs: grammar-generated valid strings (numbers incl. leading zeros, exponents, '
+          'long integers; identifiers incl. bytes >= 0x80; all operators, relationals, boolean operators and '
+          'functions; Piecewise; implicit multiplication; random whitespace; nesting up to 300 parentheses) each with '
+          '0-2 attached input faults (truncate / overwrite byte / NUL / duplicate span / delete span / splice / stray '
+          'parenthesis / operator byte / swap), convert_xor toggled per call, free parse() interleaved. Outcome of '
+          'the reused object is compared with a fresh parser on the same bytes. Non-trivial = at least one parse '
+          'issued right after a failed parse on the same object; distinct = distinct event-log hash.'),
+    state_measure='not tracked (distinct event logs are the measure)',
+    components=dict(real=REAL_COMMON + ['Parser, SbmlParser, tokenizers, bison parsers, all constructors reached from grammar actions'],
+                    stub=['sequence of inputs and input faults (seeded plan)']),
+    assumptions=['inputs that could legitimately take very long (towers of powers, special functions of huge arguments) are filtered out by a conservative syntactic predicate and not run',
+                 'safety clause: only mutations of grammar-generated strings are explored (coverage-guided fuzzing of arbitrary byte strings is a different technique and is not claimed)',
+                 'inputs <= 2500 bytes; ASan/UBSan report every memory error / UB executed', 'sampling, not proof'],
+)
+
+CHECKS['C19'] = dict(
+    variants=['asan'],
+    targets=['build/bin/c19'],
+    binaries=['build/bin/c19'],
+    quick=dict(runs=4000, workers=16, chunk=20, wall_cap=600),
+    thorough=dict(runs=80000, workers=16, chunk=20, wall_cap=3000),
+    run_timeout=60,
+    shrink_keys=['ops', 'pool', 'elems'],
+    expected_probes=['address_reused_while_output_archive_alive', 'roundtrip_string_api', 'roundtrip_archive_api',
+                     'matrix_roundtrip', 'doubles_compared_bitwise', 'alloc_policy_lifo', 'alloc_policy_fifo',
+                     'alloc_policy_random', 'alloc_policy_system'],
+    rule=('one run = an expression pool of 3-16 DAG nodes over every serialisable class (numbers of every kind incl. '
+          'exact double bit patterns, symbols, dummies, constants, sums, products, powers, all function classes, '
+          'relationals, booleans, Piecewise, Contains, sets, Derivative, Subs) with deliberate sharing, then 2-15 '
+          'steps: round trip through Basic::dumps/loads or through the archive templates (recording output '
+          'streambuf, short-read input streambuf), DenseMatrix round trips, and allocation of unrelated live '
+          'objects in between; the allocator seam runs one reuse policy per run (LIFO immediate reuse, FIFO delayed, '
+          'seeded random, system). Oracle: eq both ways, same str, same hash, double leaves bit-identical, dump of '
+          'the copy not longer than the dump of the original (sharing restored). Non-trivial = at least one round '
+          'trip during whose dumps() an address was reused (or system policy); distinct = distinct event-log hash.'),
+    state_measure='not tracked (distinct event logs are the measure)',
+    components=dict(real=REAL_COMMON + ['serialize-cereal.h archives (header code compiled into the harness)', 'Basic::dumps/loads, DenseMatrix::dumps/loads'],
+                    stub=['global operator new/delete (allocator seam: reuse policy, budget, ledger)', 'std::streambuf under the archives (recording / short reads)']),
+    assumptions=['no byte is corrupted in this check (C20 does that)',
+                 'field-completeness of every save/load pair is sampled by the generator, not enumerated',
+                 'RealDouble NaN payloads are not generated (NaN != NaN makes eq undefined for them)',
+                 'sampling, not proof'],
+)
